@@ -545,8 +545,8 @@ func runWireCase(raw json.RawMessage, w *TraceWriter) {
 			"tid", tidOf(o2.err), "srcerr", false, "panic", o2.panicd)
 	}
 	// stream reader under fragmentations (it allocates the declared string length: capped)
-	if declaredStr(c.Kind, in) > allocCap {
-		return
+	if d := declaredStr(c.Kind, in); d > allocCap && (d > int64(len(in)) || d > 16<<20) {
+		return // a declared length the input does not back (an honest multi-MiB value is read like any other)
 	}
 	for si, sh := range skipChunkShapes {
 		if len(in) > 600 && si >= 3 {
@@ -573,7 +573,63 @@ func runWireCase(raw json.RawMessage, w *TraceWriter) {
 			br2.Recycle()
 			rd2.Release(nil)
 		}
+		// a reader that is not sticky (somebody else's bufiox.Reader over a connection with deadlines): its first call fails
+		// with a transient error, the caller retries, and the decode then runs into whatever the source does next.  Every
+		// failure carries the error of THAT call: the second one the source's own end, not the time-out seen before it
+		if si == 0 {
+			src3 := &dataSource{data: in, chunks: sh.chunks, wd: sh.wd, fail: sh.fail}
+			rd3 := &flakyReader{fwdReader: fwdReader{r: bufiox.NewDefaultReader(src3)}, failFirst: errTransient}
+			br3 := thrift.NewBufferReader(rd3)
+			o0 := decodeStream(c.Kind, in, br3)
+			first := o0.err != nil && wrapsSource(o0.err, errTransient) && rd3.ReadLen() == 0
+			o3 := decodeStream(c.Kind, in, br3)
+			w.Ev("dec", "api", "stream", "kind", c.Kind, "frag", sh.name+"+retry-after-transient-error", "in", inJSON, "ok", o3.ok && first, "n", o3.n, "used", rd3.ReadLen(), "val", Raw(o3.val),
+				"tid", tidOf(o3.err), "srcerr", first && wrapsSource(o3.err, src3.endErr()), "panic", o3.panicd || o0.panicd)
+			br3.Recycle()
+			rd3.Release(nil)
+		}
 	}
+}
+
+var errTransient = errors.New("verif: i/o timeout (transient)")
+
+// flakyReader: a foreign bufiox.Reader whose first call fails with a transient error without consuming anything;
+// afterwards it forwards.  Unlike the library's own reader it does not remember the error.
+type flakyReader struct {
+	fwdReader
+	failFirst error
+}
+
+func (f *flakyReader) trip() error {
+	if e := f.failFirst; e != nil {
+		f.failFirst = nil
+		return e
+	}
+	return nil
+}
+func (f *flakyReader) Next(n int) ([]byte, error) {
+	if e := f.trip(); e != nil {
+		return nil, e
+	}
+	return f.fwdReader.Next(n)
+}
+func (f *flakyReader) ReadBinary(b []byte) (int, error) {
+	if e := f.trip(); e != nil {
+		return 0, e
+	}
+	return f.fwdReader.ReadBinary(b)
+}
+func (f *flakyReader) Peek(n int) ([]byte, error) {
+	if e := f.trip(); e != nil {
+		return nil, e
+	}
+	return f.fwdReader.Peek(n)
+}
+func (f *flakyReader) Skip(n int) error {
+	if e := f.trip(); e != nil {
+		return e
+	}
+	return f.fwdReader.Skip(n)
 }
 
 // fwdReader is a bufiox.Reader of the harness' own type that forwards to a real one (what a tracing or metering wrapper
